@@ -50,6 +50,8 @@ def run(repo: Repo, tier: str, res: CheckResult, seed: int = 0) -> None:
     regex_loader_takes_str_only(repo, res)
     newtype_delegates_one_level(repo, res)
     alias_arguments_by_alias_parameters(repo, res)
+    lax_loaders_pass_the_datum(repo, res)
+    union_closures_not_shared_across_literals(repo, res)
     res.assumptions = list(ASSUMPTIONS)
 
 
@@ -149,18 +151,36 @@ SUBCLASS_OK = {("tuple", "Iterable"), ("tuple", "Reversible"), ("tuple", "Collec
                ("dict", "MutableMapping"), ("bytes", "ByteString")}
 
 
-def _dict_literal(ci: ClassInfo, attr: str) -> Dict[str, str]:
+def _dict_literal(ci: ClassInfo, attr: str, repo: Optional[Repo] = None) -> Dict[str, str]:
     e = ci.attrs.get(attr)
-    if not isinstance(e, ast.Dict):
+    if isinstance(e, ast.Dict):
+        return {norm(k): norm(v) for k, v in zip(e.keys, e.values)}
+    if e is None or repo is None:
         raise AnalysisError(f"anchor vanished: {ci.name}.{attr} is not a dict display")
-    return {norm(k): norm(v) for k, v in zip(e.keys, e.values)}
+    # the table is COMPUTED in the class body (a comprehension, a helper): the class definition is executed in a child process
+    # (an import of the module -- definitions only, no loader is created or called) and the finished table is read
+    import json as _json
+    import os
+    import subprocess
+    mod = ci.module.name
+    code = (f"import json, importlib; m = importlib.import_module({mod!r}); t = getattr(m.{ci.name}, {attr!r}); "
+            "print(json.dumps({k.__module__ + '.' + k.__qualname__: v.__name__ for k, v in t.items()})); "
+            "import adaptix; print(adaptix.__file__)")
+    env = dict(os.environ)
+    env["PYTHONPATH"] = str(repo.src_root)
+    env["PYTHONDONTWRITEBYTECODE"] = "1"
+    p = subprocess.run(["/venv/bin/python", "-c", code], capture_output=True, text=True, env=env, timeout=120, cwd="/")
+    lines = p.stdout.strip().splitlines()
+    if p.returncode != 0 or len(lines) != 2 or not lines[1].startswith(str(repo.src_root)):
+        raise AnalysisError(f"{ci.name}.{attr} is computed and could not be read from the class definition: {p.stderr[-300:]}")
+    return dict(_json.loads(lines[0]))
 
 
 def abc_tables(repo: Repo, res: CheckResult) -> None:
     mi = repo.mod("morphing/iterable_provider")
     mc = repo.mod("conversion/coercer_provider")
-    li = _dict_literal(mi.classes["IterableProvider"], "ABC_TO_IMPL")
-    co = _dict_literal(mc.classes["IterableCoercerProvider"], "ABC_TO_IMPL")
+    li = _dict_literal(mi.classes["IterableProvider"], "ABC_TO_IMPL", repo)
+    co = _dict_literal(mc.classes["IterableCoercerProvider"], "ABC_TO_IMPL", repo)
     res.evaluated("abc:loader-table", True)
     res.sample({"ABC_TO_IMPL": li})
     for k in sorted(set(li) | set(ABC_EXPECT)):
@@ -803,3 +823,41 @@ def alias_arguments_by_alias_parameters(repo: Repo, res: CheckResult) -> None:
                         f"`{norm(subs[0])[:60]}` subscripts the VALUE of the alias with the arguments of the alias: the value's parameters "
                         "are in order of first appearance (dict[B, A] -> (B, A)), so Swap[str, int] with `type Swap[A, B] = dict[B, A]` "
                         "is processed as dict[str, int]", subs[0].lineno))
+
+
+def lax_loaders_pass_the_datum(repo: Repo, res: CheckResult) -> None:
+    """Documentation, lax column: the value is "loaded using the constructor" -- `T(data)`. A lax loader that first rewrites the
+    datum (float -> repr(float), stripping, rounding) loads another value than the constructor does: load(0.1, Decimal) is
+    Decimal(0.1), not Decimal('0.1')."""
+    m = repo.mod(CP)
+    n = 0
+    for name, fn in m.functions.items():
+        if not name.endswith("_lax_coercion_loader"):
+            continue
+        n += 1
+        d = func_params(fn)[0]
+        res.evaluated(f"lax-datum:{name}", True)
+        for a in ast.walk(fn):
+            tg = a.targets if isinstance(a, ast.Assign) else [a.target] if isinstance(a, (ast.AugAssign, ast.AnnAssign)) else []
+            if any(isinstance(t, ast.Name) and t.id == d for t in tg):
+                res.add(Finding("C02", "DOC.lax-datum-rewritten", m.rel, name, norm(a)[:100],
+                                f"`{norm(a)[:80]}` replaces the datum before the constructor sees it: the documented lax rule is "
+                                "\"loaded using the constructor\", so the result must be T(data) for the datum as given "
+                                "(load(0.1, Decimal) == Decimal(0.1))", a.lineno))
+    res.count("DOC.lax-loaders", n, 4)
+
+
+def union_closures_not_shared_across_literals(repo: Repo, res: CheckResult) -> None:
+    """Union[Literal[0, 1], Decimal] and Union[Literal[False, True], Decimal] follow different rules (a Literal member is dumped
+    as is, anything else by the dumper of its class). Their closures are memoised per retort (cached_call): the key must tell
+    the two unions apart -- Literal cases carried as a plain tuple compare equal (audit shared with C11)."""
+    from .c11 import ted_cache_keys
+    sub = CheckResult("C11")
+    ted_cache_keys(repo, sub)
+    res.evaluated("union:memo-key-tells-literals-apart", True)
+    for f in sub.findings:
+        if "UnionProvider" in f.qualname:
+            res.add(Finding("C02", "UNION.closure-shared-across-literal-types", f.file, f.qualname, f.construct,
+                            "the union closure is memoised under a key in which the Literal cases are a plain tuple: (0, 1) == "
+                            "(False, True), so the union requested second on a retort gets the closure of the first -- its own "
+                            "Literal members are no longer recognised (KeyError / dumped by the wrong rule). " + f.message[:120], f.line))
